@@ -287,3 +287,23 @@ Definition mismatches_field := mismatches ok_field.
 Definition ok_type (c : otype * string * option string) : bool :=
   let '(t, f, obs) := c in opt_eqb String.eqb (go_type t f) obs.
 Definition mismatches_type := mismatches ok_type.
+
+(** C10: observed = result of mergeOpenapiSchemas on two schemas (None = error):
+    (type, format, required in order, property names sorted with their schema identity, additionalProperties). *)
+From V Require Import Model.Merge.
+Definition addl_eqb (a b : addl) : bool :=
+  match a, b with
+  | AAbsent, AAbsent | ATrue, ATrue | AFalse, AFalse => true
+  | ASchema x, ASchema y => String.eqb x y
+  | _, _ => false
+  end.
+Definition ok_merge2 (c : leaf * leaf * option (option string * string * list string * list (string * string) * addl)) : bool :=
+  let '(a, b, obs) := c in
+  match merge2 a b, obs with
+  | None, None => true
+  | Some r, Some (t, f, req, props, ad) =>
+      opt_eqb String.eqb (l_type r) t && String.eqb (l_format r) f && list_eqb String.eqb (l_required r) req
+      && list_eqb pair_eqb (sort_kv (l_props r)) props && addl_eqb (l_addl r) ad
+  | _, _ => false
+  end.
+Definition mismatches_merge2 := mismatches ok_merge2.
